@@ -139,6 +139,51 @@ pub mod c02 {
         }
         Ok(Guarded { value: acc, guard: keep })
     }
+
+    // G4d controls: values moved out of shared (traced) state
+    use super::gc::{Gc, Guard};
+    use std::cell::RefCell;
+    use std::rc::Rc;
+    pub struct Handler { pub target: Gc<JsObject>, pub callback: Option<JsValue> }
+    pub struct State { pub handlers: Vec<Handler>, pub results: Vec<JsValue> }
+    fn run_handler(interp: &mut Interp, h: Handler) -> Result<(), ()> {
+        interp.call_function(JsValue::Object(h.target), &[])?;
+        Ok(())
+    }
+    /// BAD: the handlers left the traced state; only the heap kept their objects alive
+    pub fn detached_unrooted(interp: &mut Interp, st: &Rc<RefCell<State>>) -> Result<(), ()> {
+        let handlers = std::mem::take(&mut st.borrow_mut().handlers);
+        for h in handlers {
+            run_handler(interp, h)?;
+        }
+        Ok(())
+    }
+    fn guard_all(g: &Guard<JsObject>, hs: &[Handler]) {
+        for h in hs {
+            g.guard(h.target.clone());
+            if let Some(JsValue::Object(cb)) = &h.callback { g.guard(cb.clone()); }
+        }
+    }
+    /// GOOD: a helper roots every handler before the first one runs
+    pub fn detached_rooted_by_helper(interp: &mut Interp, st: &Rc<RefCell<State>>) -> Result<(), ()> {
+        let handlers = std::mem::take(&mut st.borrow_mut().handlers);
+        let keep = Guard(Vec::new(), std::marker::PhantomData);
+        guard_all(&keep, &handlers);
+        for h in handlers {
+            run_handler(interp, h)?;
+        }
+        Ok(())
+    }
+    /// GOOD: every taken value is guarded in a loop before the allocation
+    pub fn detached_rooted_by_loop(interp: &mut Interp, st: &Rc<RefCell<State>>) -> Result<JsValue, ()> {
+        let results = std::mem::take(&mut st.borrow_mut().results);
+        let keep = Guard(Vec::new(), std::marker::PhantomData);
+        for v in &results {
+            if let JsValue::Object(o) = v { keep.guard(o.clone()); }
+        }
+        let Guarded { value: _, guard: _g } = interp.call_function(JsValue::Undefined, &results)?;
+        Ok(results.into_iter().next().unwrap_or(JsValue::Undefined))
+    }
 }
 
 // C01 R7 controls: element-wise copy inside one vector at two different offsets
